@@ -237,6 +237,10 @@ func (e *fmEngine) Generate(seed uint64, tier string, run int) (json.RawMessage,
 				}
 				lastQueries = append(lastQueries, op)
 			}
+			op.N = 0
+			if rg.Chance(0.5) {
+				op.N = 1 // reuse the caller's slice in place when the lengths match
+			}
 		case "setscript":
 			op.Script = uint32(kernel.Pick(rg, fmScripts))
 			if rg.Chance(0.5) {
@@ -276,6 +280,7 @@ type fmMap struct {
 }
 
 type fmWorld struct {
+	famBuf  []string // the families slice last handed to SetQuery on the map under test
 	c       *FMCase
 	out     *kernel.Outcome
 	dir     string // scratch system font directory ("" if none)
@@ -487,6 +492,14 @@ func (w *fmWorld) exec(op *FMOp) (*kernel.Violation, error) {
 		w.out.Nontrivial = true
 	case "setquery":
 		q := fontscan.Query{Families: append([]string(nil), op.Families...), Aspect: op.Aspect.aspect()}
+		if op.N == 1 && len(w.famBuf) == len(op.Families) && len(op.Families) > 0 {
+			// the caller rewrites the slice it passed last time and passes it again
+			copy(w.famBuf, op.Families)
+			q.Families = w.famBuf
+			w.probe("query_families_slice_rewritten_in_place")
+		} else {
+			w.famBuf = q.Families
+		}
 		w.sut.fm.SetQuery(q)
 		w.query = fontscan.Query{Families: append([]string(nil), op.Families...), Aspect: op.Aspect.aspect()}
 		w.log(fmt.Sprintf("setquery %q %v", op.Families, op.Aspect))
